@@ -578,7 +578,9 @@ UsesOrder(e) == \/ e[1] = "vpr"
                 \/ \E i \in 1..Len(Children(e)) : UsesOrder(Children(e)[i])
 
 (* Can the expression trigger a value-level known deviation at all?  (Only *)
-(* saves work: the classification below is skipped when FALSE.)            *)
+(* saves work: the classification below is skipped when FALSE.  The class  *)
+(* "to_number-non-json-number" is looked for by the generator wherever     *)
+(* to_number occurs, and only by the configurations that list it.)         *)
 RECURSIVE MayDeviate(_)
 MayDeviate(e) == \/ e[1] = "fil"
                  \/ (e[1] \in {"prj", "vpr", "flt"} /\ e[3] # <<"cur">>)
